@@ -3,7 +3,7 @@
    [runs b sc os] = the loop of back-end b on script sc, one iteration per kernel report in the
    oracle list os (ANY list: the life-cycle theorems do not rely on the kernel behaving);
    the result flag tells whether the loop has exited.  Traces are newest-first. *)
-From MV Require Import C13.Model C13.ProofsLife C13.ProofsIso C13.ProofsAgree C13.ProofsRead C13.ProofsFlat.
+From MV Require Import C13.Model C13.ProofsLife C13.ProofsIso C13.ProofsAgree C13.ProofsRead C13.ProofsFix C13.ProofsFlat.
 From Coq Require Import Permutation.
 
 (* the close callback runs at most once per context *)
@@ -114,26 +114,36 @@ Print Assumptions evl_add_reject_remove_isolated.
 (* FULL STATEMENT evl_backends_agree: forall sc, in_S sc = true -> the three loops (on the model's
    kernel function, [runks]) have exited -> every context has the same outcome (bytes offered,
    closed, cleared) in the three back-ends.
-   PROVED for the FLAT sub-class of S ([flat]): no read-callback triggers - every action (write,
-   half-close, close of the peer, add, wake-up) is issued before run() or from an idle phase, i.e.
-   from the wake callback at quiescence, in any number of phases -, no scripted exit / shutdown,
-   and the adds fit hints_max_fd.  Each back-end ends with the outcome of the back-end-free
-   specification [spec_outcome]: every registered context was offered every byte written to it and
-   is closed iff its peer terminated, cleared otherwise (evl_flat_outcome); hence agreement, each
-   loop with its own number of kernel calls.
-   NOT PROVED: scripts of S whose read callbacks issue actions (triggers); there the proved part
-   is evl_backends_agree_visit below (a visit transforms the shared state identically in the three
-   back-ends) and the monitor checks agreement on every generated S script. *)
-Theorem evl_flat_outcome : forall sc, flat sc = true -> forall b fuel s',
-  runks b sc fuel = (s', true) -> forall x, outcome s' x = spec_outcome sc x.
-Proof. exact flat_outcome. Qed.
-Print Assumptions evl_flat_outcome.
+   PROVED for the sub-class SW of S ([sw]): every read-callback trigger WRITES to some context's
+   peer (threshold >= 1, no two identical trigger lines) - so callbacks do issue actions, chains and
+   cycles of triggers, several writers into one context and contexts writing to themselves included -;
+   every other action (half-close, close of the peer, add, wake-up, write) is issued before run() or
+   from an idle phase, i.e. from the wake callback at quiescence, in any number of phases; no
+   scripted exit / shutdown; the adds fit hints_max_fd.  (The flat class, no triggers at all, is the
+   special case: flat_sw, flat_outcome, agree_flat in C13/ProofsFlat.v.)
+   Method: the back-end-free specification [spec_sw] executes the phases in order and, between two
+   phases, fires the LEAST FIXPOINT of "registered and threshold reached by the bytes written so
+   far" (Kleene iteration [LP], C13/ProofsFix.v) - a set, independent of any visit order.  Each
+   back-end's loop is simulated against it: whatever the order of visits, the triggers it has fired
+   are justified one by the other, hence below the fixpoint (Just_sound), and at quiescence the fired
+   set is closed, hence above it (quiet_closed, closed_is_lfp).  Each loop therefore ends with the
+   outcome [spec_outcome_sw]: every registered context was offered every byte written to it and is
+   closed iff its peer terminated, cleared otherwise (evl_sw_outcome); hence agreement, each loop
+   with its own number of kernel calls.
+   NOT PROVED: scripts of S whose triggers terminate a peer (half-close / close, single-source
+   condition term_ok), add a context, shut the acting context down at its threshold, or wake the
+   loop; for those the proved part is evl_backends_agree_visit below and the monitor checks
+   agreement on every generated S script. *)
+Theorem evl_sw_outcome : forall sc, sw sc = true -> forall b fuel s',
+  runks b sc fuel = (s', true) -> forall x, outcome s' x = spec_outcome_sw sc x.
+Proof. exact sw_outcome. Qed.
+Print Assumptions evl_sw_outcome.
 
-Theorem evl_backends_agree_partial : forall sc, flat sc = true -> forall f1 f2 f3,
+Theorem evl_backends_agree_partial : forall sc, sw sc = true -> forall f1 f2 f3,
   snd (runks BSelect sc f1) = true -> snd (runks BPoll sc f2) = true -> snd (runks BEpoll sc f3) = true ->
   forall x, outcome (fst (runks BSelect sc f1)) x = outcome (fst (runks BPoll sc f2)) x /\
             outcome (fst (runks BSelect sc f1)) x = outcome (fst (runks BEpoll sc f3)) x.
-Proof. exact agree_flat. Qed.
+Proof. exact agree_sw. Qed.
 Print Assumptions evl_backends_agree_partial.
 
 Theorem evl_backends_agree_visit : forall x s s', shared s = shared s' -> read_room x s -> read_room x s' ->
